@@ -763,6 +763,9 @@ mod error;
 pub mod fmt;
 #[cfg(feature = "std")]
 mod now;
+#[cfg(all(jiff_verif, feature = "std"))]
+#[doc(hidden)]
+pub mod verif;
 #[doc(hidden)]
 pub mod shared;
 mod signed_duration;
